@@ -149,6 +149,15 @@ def check_object(P, ver, s, order_log=None, built=None):
     return o
 
 
+_SUBCLASSES = {}
+
+
+def _trivial_subclass(cls):
+    if cls not in _SUBCLASSES:
+        _SUBCLASSES[cls] = type(str("My" + cls.__name__), (cls,), {})
+    return _SUBCLASSES[cls]
+
+
 def check_pair(P, va, sa, vb, sb, kind="?"):
     """Equality oracle on two accepted strings (possibly of different versions)."""
     L = lib()
@@ -178,6 +187,18 @@ def check_pair(P, va, sa, vb, sb, kind="?"):
     if not ok or r[0] is expect or r[1] is expect or not all(isinstance(x, bool) for x in r):
         P.violation("eq-oracle", "C07:%s:ne-operator-disagrees-with-eq:%s" % ("v%s" % va if va == vb else "cross-version", kind), case,
                     observed=repr(r), eq=expect)
+    # the same comparison with b as an instance of a trivial user subclass (`class MyCVSS3(CVSS3): pass` -- an object of
+    # the same CVSS version defining the same metric values; Python asks the subclass operand first, whichever side it is on)
+    ok, bs = obs.call(lambda: _trivial_subclass(L.CLS[vb])(sb))
+    if ok:
+        P.ev("eq-subclass-operand")
+        ok, r = obs.call(lambda: (a == bs, bs == a, a != bs, bs != a, hash(bs) == hash(b), bs == b, b == bs))
+        want = (expect, expect, not expect, not expect, True, True, True)
+        if not ok or tuple(r) != want or not all(isinstance(x, bool) for x in r):
+            names = ["a==sub", "sub==a", "a!=sub", "sub!=a", "hash(sub)==hash(plain)", "sub==plain", "plain==sub"]
+            bad = [n for n, x, w in zip(names, r, want) if x is not w] if ok else ["raises"]
+            P.violation("eq-oracle", "C07:%s:instance-of-a-trivial-subclass-compares-differently:%s" % (
+                "v%s" % va if va == vb else "cross-version", "+".join(bad)[:80]), case, observed=repr(r), expected=repr(want))
     ok, r = obs.call(lambda: (hash(a), hash(b), len({a, b}), a in {b: 1}))
     if not ok:
         P.violation("eq-oracle", "C07:pair:hash-or-set-raises", case, error=repr(r))
